@@ -50,10 +50,19 @@ pub fn be_parameter_value(input: &[u8], id: ParameterId) -> nom::IResult<&[u8], 
         ParameterValueType::ResetToken => {
             map(be_reset_token, ParameterValue::ResetToken).parse(input)
         }
-        ParameterValueType::ConnectionId => Ok((
-            &[],
-            ParameterValue::ConnectionId(ConnectionId::from_slice(input)),
-        )),
+        ParameterValueType::ConnectionId => {
+            // a connection id is at most 20 bytes long, the value is the peer's to choose
+            if input.len() > crate::cid::MAX_CID_SIZE {
+                return Err(nom::Err::Error(nom::error::make_error(
+                    input,
+                    nom::error::ErrorKind::TooLarge,
+                )));
+            }
+            Ok((
+                &[],
+                ParameterValue::ConnectionId(ConnectionId::from_slice(input)),
+            ))
+        }
         ParameterValueType::PreferredAddress => {
             map(be_preferred_address, ParameterValue::PreferredAddress).parse(input)
         }
@@ -145,11 +154,16 @@ impl<Role, T: bytes::BufMut> WriteParameters<Role> for T {
 }
 
 fn handle_nom_error<F: Debug, E: Debug>(input: &[u8], nom_error: nom::Err<F, E>) -> Error {
-    assert!(
-        matches!(nom_error, nom::Err::Incomplete(..)),
-        "Only incomplete errors should occur, but {nom_error:?} happened for input: {input:?}"
-    );
-    Error::IncompleteParameterId(format!("incomplete parameter data for input: {input:?}"))
+    // The blob is the peer's: whatever is wrong with it (too short, too long, a field that does
+    // not parse) is a transport parameter error, never a reason to panic.
+    match nom_error {
+        nom::Err::Incomplete(..) => Error::IncompleteParameterId(format!(
+            "incomplete parameter data for input: {input:?}"
+        )),
+        other => Error::IncompleteParameterId(format!(
+            "malformed parameter data ({other:?}) for input: {input:?}"
+        )),
+    }
 }
 
 impl<R: IntoRole + RequiredParameters + Default> Parameters<R> {
@@ -172,7 +186,13 @@ impl<R: IntoRole + RequiredParameters + Default> Parameters<R> {
             ParameterId::belong_to(param_id, R::into_role())?;
             let (remain, param_value) = be_parameter_value(param_value, param_id)
                 .map_err(|nom_error| handle_nom_error(param_value, nom_error))?;
-            assert!(remain.is_empty(), "Parameter value should consume all data");
+            if !remain.is_empty() {
+                return Err(Error::IncompleteValue(
+                    param_id,
+                    format!("{} trailing bytes after the value", remain.len()),
+                )
+                .into());
+            }
 
             parameters.set(param_id, param_value)?;
         }
@@ -205,7 +225,13 @@ impl ServerParameters {
             ParameterId::belong_to(param_id, Role::Server)?;
             let (remain, param_value) = be_parameter_value(param_value, param_id)
                 .map_err(|nom_error| handle_nom_error(param_value, nom_error))?;
-            assert!(remain.is_empty(), "Parameter value should consume all data");
+            if !remain.is_empty() {
+                return Err(Error::IncompleteValue(
+                    param_id,
+                    format!("{} trailing bytes after the value", remain.len()),
+                )
+                .into());
+            }
 
             parameters.set(param_id, param_value)?;
         }
